@@ -547,7 +547,7 @@ def evaluate(ctx, case):
         ctx.h('validator x oracle class', '%s/%s' % (FUNC_NAME[v], CLASS_NAME[k]))
         if exc is not None:
             ctx.h('violations by input shape', '%s: %s' % (FUNC_NAME[v], violation_shape(v, text)))
-            ctx.fail('answers-rather-than-raises', case,
+            ctx.fail('answers-rather-than-raises (%s)' % violation_shape(v, text), case,
                      {'validator': FUNC_NAME[v], 'text': text[:200], 'exc': exc,
                       'shape': violation_shape(v, text)})
             continue
@@ -590,7 +590,6 @@ SCOPE_ALPHA = 'abcdefghijklmnopqrstuvwxyzABCDEFGHIJKLMNOPQRSTUVWXYZ0123456789'
 SCOPE_ODD = ['eth0/64', 'a%b', 'eth 0', 'e\x00', 'eth0\n', '%', '/', 'é', 'a/b/c', '1%', ' ', 'eth0:1', 'e#', '\x00']
 V6_DECOR = [('', ' '), ('', '\n'), ('', '\x00'), (' ', ''), ('\n', ''), ('', '\t'), ('[', ']'), ('', '.'),
             ('\x00', ''), ('', '\r')]
-PFX_EDGE = [-1, 0, 1, 7, 8, 9, 16, 24, 30, 31, 32, 33, 34, 48, 63, 64, 65, 96, 104, 126, 127, 128, 129]
 PFX_SPELL = [' 8', '+8', '08', '8 ', '8\n', '٨', '1_0', '008', '\t8', '8\r\n', '+0', '-0', '٣٢', '8\x0b',
              '255.0.0.0', '255.255.255.0', '0.0.0.255', '255.255.255.255', '0.0.0.0', 'ffff::', 'ffff:ffff::',
              '::', '1e1', 'e', '--1', '8.', '.8', '8:', '+', '-', '_', ' ']
@@ -1059,7 +1058,7 @@ def run(ctx):
                 ctx.sample(case.get('cls') or case['kind'], case)
                 evaluate(ctx, case)
 
-    scale = ctx.pick(1, 40)
+    scale = ctx.pick(1, 20)
     blocks('v4', 22000 * scale, lambda rng: gen_v4(rng, pick_quota(rng, QUOTA_V4)))
     blocks('v6', 30000 * scale, lambda rng: gen_v6(rng, pick_quota(rng, QUOTA_V6)))
     blocks('cidr', 24000 * scale, lambda rng: gen_cidr(rng, pick_quota(rng, QUOTA_CIDR)))
